@@ -1,12 +1,12 @@
-"""development helper: regenerate history #k of seed, run ops only up to the op index n, print info"""
+"""development helper: regenerate history #k of seed, shrink its first problem, print the minimal script"""
 import os, sys, random, json
 sys.path.insert(0, os.path.dirname(os.path.abspath(__file__)))
 import common
 sys.path.insert(0, common.REPO)
-import eng_gen, eng_run, eng_impl
+import eng_gen, eng_run, eng_impl, eng_shrink
 
 seed = int(sys.argv[1]); hist = int(sys.argv[2]); disc = sys.argv[3]
-extra = sys.argv[4:]
+internal = len(sys.argv) > 4 and sys.argv[4] == 'internal'
 exe = common.build_driver('engine')
 eng_impl.set_penalty_base(0.5)
 pens = eng_impl.penalties()
@@ -14,18 +14,15 @@ rng = random.Random(seed)
 for k in range(hist + 1):
     ul, ol, meta = eng_gen.gen_history(rng)
     h = eng_run.build_script(ul, ol, meta, disc, rng)
-res = eng_run.run_histories(exe, [h], pens, eng_impl.Impl)
-d = (res.disagreements + res.internal)[0]
+lines = [l for l, k in h if not l.startswith(('u_', 'commit'))]
+lines, d = eng_shrink.shrink(exe, pens, ul, lines, internal)
 print(d)
-idx = d['index']
-lines = [l for l, k in h[:idx + 1] if k != 'obs'] 
-# rerun ops only, then the failing command and extras
-script = lines + [d['cmd']] + ['trace'] + extra
+ul2 = eng_shrink.shrink_universe(exe, pens, ul, lines, internal)
+script = ul2 + lines + ['trace']
 impl = eng_impl.Impl()
 mo = common.run_driver(exe, [eng_run.pen_line(pens)] + script, shards=1)[1:]
 for l, m in zip(script, mo):
     i = impl.run(l) if not l.startswith('trace') else ''
-    if not l.startswith('u_') :
-        flag = '' if eng_run.same(l, m, i) or l == 'trace' else '   <<<<<<'
-        print('%-40s | %s | %s%s' % (l, m[:600], i[:600], flag))
-json.dump({'ulines': ul, 'ops': [l for l in lines if not l.startswith(('u_', 'commit'))]}, open('/verif/.work/last_debug.json', 'w'))
+    flag = '' if eng_run.same(l, m, i) or l == 'trace' else '   <<<<<<'
+    print('%-40s | %s | %s%s' % (l, m[:700], i[:700], flag))
+json.dump({'ulines': ul2, 'ops': lines}, open('/verif/.work/last_debug.json', 'w'), indent=0)
